@@ -182,7 +182,7 @@ def fam_requery(R, deg):
     cls = {1: Line, 2: QuadraticBezier, 3: CubicBezier}[deg]
     fields = {1: ['start', 'end'], 2: ['start', 'control', 'end'],
               3: ['start', 'control1', 'control2', 'end']}[deg]
-    R.bound(degree=deg, history='query all; reassign every control point; query all')
+    R.bound(degree=deg, history='query all; reassign every control point; one query (a fresh object per re-query)')
     queries = [
         ('point', lambda s, t: s.point(t)),
         ('poly', lambda s, t: s.poly()(t)),
@@ -197,11 +197,14 @@ def fam_requery(R, deg):
         qs = [symc('q%d' % i) for i in range(deg + 1)]
         t = symr('t')
         Ctx.cur.assume(z3.Not(ceq(ps[0], ps[-1])), z3.Not(ceq(qs[0], qs[-1])))
-        seg = cls(*ps)
-        first = [(n, f(seg, t)) for n, f in queries]
-        for name, q in zip(fields, qs):
-            setattr(seg, name, q)
-        second = [(n, f(seg, t)) for n, f in queries]
+        first, second = [], []
+        # one object per re-query, so that no earlier re-query can refresh what a later one reads
+        for n, f in queries:
+            seg = cls(*ps)
+            first = [(n_, f_(seg, t)) for n_, f_ in queries]
+            for name, q in zip(fields, qs):
+                setattr(seg, name, q)
+            second.append((n, f(seg, t)))
         return ps, qs, t, first, second
 
     for ctx, (kind, val) in explore(run, maxpaths=400):
@@ -222,6 +225,8 @@ def fam_requery(R, deg):
                         'derivative2': 'seg.derivative(t,2)'}
                 want_s = 'derivF(qs, t, %s)' % name[-1] if name.startswith('derivative') else 'bernF(qs, t)'
                 script = REPLAY_ORACLE + '''
+from svgpathtools.path import bez2poly, poly2bez
+import numpy as np
 ps = %r
 qs = %r
 t = %r
